@@ -5,7 +5,7 @@ from props import _design as D
 from props._design import unsupported, prepare, CASE_TIMEOUT  # noqa: F401
 
 ID = "C16"
-PROP_FILES = ["Properties/C16.v"]
+PROP_FILES = ["Properties/C16.v", "Properties/C16_design.v"]
 THEOREMS = ["C16_alias_B", "C16_alias_prop", "C16_alias_standardize", "C16_T_is_C_Treatment", "C16_S_is_C_Sum",
             "C16_binary_spec", "C16_I_identity"]
 ASSUMPTIONS = ["frames without missing values; integer successes / trials"]
@@ -53,6 +53,9 @@ def _pairs(rng, fr):
         ("y ~ C(x, 3)", None, "refused"),
         ("y ~ I(x)", "y ~ x", "I"),
         ("y ~ I(x + z)", "y ~ {x + z}", "I-brace"),
+        # I(e) is e for a categorical e as well (ordered categorical: the declared order is not the sorted one)
+        ("y ~ I(o)", "y ~ o", "I-cat"), ("y ~ x + {o}:z", "y ~ x + o:z", "I-cat"), ("y ~ 0 + I(c)", "y ~ 0 + c", "I-cat"),
+        ("y ~ I(f) + x", "y ~ f + x", "I-cat"), ("I(o) ~ x", "o ~ x", "I-cat"),
         ("y ~ standardize(x) + f", "y ~ scale(x) + f", "standardize"),
         (f"y ~ T(f, '{r}')", f"y ~ C(f, Treatment('{r}'))", "T"),
         (f"y ~ x + S(g, '{o}')", f"y ~ x + C(g, Sum('{o}'))", "S"),
